@@ -51,6 +51,48 @@ def h_text(m, ctx, lens, les, final_newline, trailing=True, alpha='ascii'):
         violation(ctx, 'a command was run for a source without directives', data)
 
 
+def h_raw(m, ctx, n, trailing=True, alpha=(120, 13, 10)):
+    """directive-free source given as n raw symbolic bytes over {x, CR, LF}: where the lines end is decided by the bytes
+    themselves (lone CR, CR CR LF, CR at end of file ... are line CONTENT; only LF / CR LF terminate a line)"""
+    it = Interp(m, ctx)
+    source = ctx.fresh_bytes('r', n, list(alpha))
+    se = SymEnv(ctx, inc_len=0, out_len=0)
+    env = se.install(it, source)
+    r = run_preprocess(m, it, 'Build', False, trailing)
+    data = {'op': 'pp', 'source': syms_of(source), 'inc': [], 'cmd_results': [], 'trailing': trailing, 'source_shown': show_bytes(source)}
+    if r.idx != 0:
+        violation(ctx, 'a source without directives failed to build', data)
+    spec = specpp.process(ctx, source, se, trailing)
+    ctx.cover('raw_text')
+    check_bytes_equal(ctx, env.read_file(OUT), spec.output, 'directive-free source is not reproduced line for line', data)
+
+
+def h_two_tags(m, ctx, nv=2, nt=3, le=b'\n'):
+    """two stored tags A and B whose contents were captured from write directives (symbolic over {A, B, x}: the text of one
+    tag may spell the other tag's name) and an ordinary line that may use both: injected write text is never scanned again"""
+    it = Interp(m, ctx)
+    AB = [65, 66, 120]
+    v1 = ctx.fresh_bytes('v1', nv, AB)
+    v2 = ctx.fresh_bytes('v2', nv, AB)
+    t = ctx.fresh_bytes('t', nt, AB + [32])
+    src = []
+    # different prefixes, or the second pair would continue the first write; the text line starts with '.' for the same reason
+    for l in (tuple(b'-TXTPP#tag A'), tuple(b'-TXTPP#write ') + v1, tuple(b'+TXTPP#tag B'), tuple(b'+TXTPP#write ') + v2, (46,) + t):
+        src += list(l) + list(le)
+    source = tuple(src)
+    se = SymEnv(ctx, inc_len=0, out_len=0)
+    env = se.install(it, source)
+    r = run_preprocess(m, it, 'Build', False, True)
+    data = {'op': 'pp', 'source': syms_of(source), 'inc': [], 'cmd_results': [], 'trailing': True, 'source_shown': show_bytes(source)}
+    spec = specpp.process(ctx, source, se, True)
+    if (r.idx == 0) != spec.ok:
+        violation(ctx, 'two tags: verdict differs (implementation %s, semantics %s: %s)' % ('Ok' if r.idx == 0 else 'Err', 'Ok' if spec.ok else 'Err', spec.error), data)
+    if r.idx != 0:
+        return
+    ctx.cover('two_tags_used')
+    check_bytes_equal(ctx, env.read_file(OUT), spec.output, 'write text injected through a tag was modified / scanned again', data)
+
+
 TOKENS = [b'TXTPP#run x', b'-TXTPP#', b'TXTPP#tag A', b'A', b'-', b'// TXTPP#include f', b'x']
 
 
@@ -135,6 +177,11 @@ def jobs(tier):
     for a, b in ([(7, 2), (2, 7), (0, 7)] if quick else [(8, 3), (3, 8), (0, 8), (7, 7)]):
         js.append({'name': 'text 2 lines %d,%d look-alike' % (a, b), 'harness': (H, 'h_text'),
                    'params': {'lens': [a, b], 'les': (b'\r\n', b'\n'), 'final_newline': True, 'alpha': 'look'}, 'split': 16})
+    for n in (range(1, 6) if quick else range(1, 9)):
+        for tr in (True, False):
+            js.append({'name': 'raw text n=%d trailing=%s' % (n, tr), 'harness': (H, 'h_raw'), 'params': {'n': n, 'trailing': tr},
+                       'split': 4 if n >= 6 else 1})
+    js.append({'name': 'two tags holding write text', 'harness': (H, 'h_two_tags'), 'params': {'nv': 2, 'nt': 3 if quick else 4}, 'split': 8})
     js.append({'name': 'text no-trailing', 'harness': (H, 'h_text'), 'params': {'lens': [3, 2], 'les': (b'\n',), 'final_newline': True, 'trailing': False}})
     shapes = [[(0, 1)], [(1, 1), (0, 0)], [(None, 3), (2, 1)], [(3, 1), (3, 0), (4, 1)], [(5, 0), (None, 2)], [(6, 2), (1, 0), (None, 2)]]
     if not quick:
@@ -152,12 +199,12 @@ def jobs(tier):
     return js
 
 
-BOUNDS = {'quick': 'directive-free sources: 1 line of 0-8 arbitrary ASCII bytes, 2 lines of up to 7 bytes over a directive look-alike alphabet, '
+BOUNDS = {'quick': 'directive-free sources: every byte string of 1-5 bytes over {x, CR, LF} (lone CR, CR CR LF, CR at EOF), 1 line of 0-8 arbitrary ASCII bytes, 2 lines of up to 7 bytes over a directive look-alike alphabet, '
                    'LF/CRLF/mixed, with/without final newline; write round trip: 1-3 lines, each a look-alike token (TXTPP#run x, -TXTPP#, '
-                   'TXTPP#tag A, a stored tag name, the prefix itself, ...) + up to 3 symbolic bytes, with and without a stored tag',
-          'thorough': 'text: 0-11 bytes, 2 lines up to 8+3; write round trip: 11 shapes x LF/CRLF x tag x terminator'}
+                   'TXTPP#tag A, a stored tag name, the prefix itself, ...) + up to 3 symbolic bytes, with and without a stored tag; two tags holding 2 symbolic bytes of write text over {A,B,x} used on a line of 3 symbolic bytes',
+          'thorough': 'raw 1-8 bytes; text: 0-11 bytes, 2 lines up to 8+3; write round trip: 11 shapes x LF/CRLF x tag x terminator'}
 ASSUMPTIONS = ['D1, D2; escaped text has no leading blank on the first line and no trailing blanks (as the property states)']
-COVERS_REQUIRED = ['text_only', 'roundtrip', 'roundtrip_with_tag']
+COVERS_REQUIRED = ['two_tags_used', 'raw_text', 'text_only', 'roundtrip', 'roundtrip_with_tag']
 
 
 def replay(native, v):
